@@ -115,7 +115,9 @@ def _sweeps_estimate(ms):
     the dominant invariant subspace shrinks by |lambda_(p+1) / lambda_p| per sweep from its initial value
     t_p = |W2 W1^-1| (W = eigenvectors, sorted by decreasing |lambda|, restricted to the first p coordinates; W1 its upper p x p part):
     sweeps_p = ln(max(t_p, 1) * 1e12) / ln |lambda_p / lambda_(p+1)|.  t_p is huge (1 / angle) for a nearly diagonal matrix whose
-    diagonal is not in the order of decreasing magnitude; an exactly singular W1 is skipped."""
+    diagonal is not in the order of decreasing magnitude, and for every matrix in which span(e_1..e_p) contains an eigenvector that does
+    not belong to the p dominant ones (W1 singular: e.g. eigenvector (1, -1, 0) of the smallest eigenvalue); index sets that are decoupled
+    exactly (zero pattern) are split off first, because there the sweeps keep the pattern and no rounding noise couples them."""
     n = len(ms)
     # exactly decoupled index sets (connected components of the non-zero pattern, contiguous or interleaved) iterate independently
     comp = list(range(n))
@@ -146,11 +148,10 @@ def _sweeps_estimate(ms):
                     f = a[c][c2]
                     if f != 0:
                         for row in a + b: row[c2] -= f * row[c]
-        if not ok: continue
-        t = math.sqrt(float(sum(x * x for r in b for x in r)))
+        t = math.sqrt(float(sum(x * x for r in b for x in r))) if ok else math.inf
         # W1 singular to working precision (a dominant eigenvector orthogonal to span(e_1..e_p) up to rounding): the coupling the iteration
         # starts from is rounding noise, anything between 2^-57 and 2^-49 that the input does not determine; the estimate takes the smallest
-        if t > 2.0 ** 49: t = max(t, 2.0 ** 57)
+        if t > 2.0 ** 49: t = max(t, 2.0 ** 57) if t < math.inf else 2.0 ** 57
         worst = max(worst, math.log(max(t, 1.0) * 1e12) / math.log(abs(lam[p - 1]) / abs(lam[p])))
     return worst
 
